@@ -1139,6 +1139,10 @@ def run(ctx, model):
     n = check_constructor(ctx, cov, model, tup)
     cov.bump("constructor-cases", n)
     same_file_twice(ctx, cov)
+    # the command-line layer: `tupimage display --dump-config ...` reports, and acts on, the same configuration as the library
+    # constructor given the same overrides, file and environment
+    import c08_cli
+    c08_cli.cli_equivalence(ctx, cov, ctx.pick(24, 80), env_rate=0.8)
     rank_violations(ctx)
     return cov
 
